@@ -200,6 +200,12 @@ class Race(E1Check):
                 env.fail("factory", f"{len(p['tasks']) - len(failed) - len(got)} racing lookup(s) neither returned nor failed")
             return
         if p.get("adder"):
+            # events: the static add (if it succeeded) and ONE generation, announced with the types the product was registered under
+            if made:
+                reg = tuple(t.__name__ for t, later in ((A, later_a), (B, later_b)) if later is made[0])
+                gen = [e for e in events if not e[2] and not ("static" in adder_state and e[0] == ("B",))]
+                if reg and (len(gen) != 1 or tuple(sorted(gen[0][0])) != tuple(sorted(reg))):
+                    env.fail("events", f"the generated object is registered under {reg}; generation events received: {gen} (all events {events})")
             if "static" in adder_state and child_sees.get("B") is not adder_state["static"]:
                 env.fail("visible", "a context created after the race does not inherit the static resource that was added during the generation")
             if "static" in adder_state:
@@ -247,6 +253,9 @@ def adder_units(tier: str) -> list:
             for ag in (False, True):
                 units.append({"race": {"async": True, "types": 2, "own_child": False, "adder": True, "adder_gate": ag,
                                        "tasks": [[api, "A", pre]]}})
+                # the lookup asks for the very pair the adder takes meanwhile
+                units.append({"race": {"async": True, "types": 2, "own_child": False, "adder": True, "adder_gate": ag,
+                                       "tasks": [[api, "B", pre]]}})
                 if tier == "thorough":
                     units.append({"race": {"async": True, "types": 2, "own_child": False, "adder": True, "adder_gate": ag,
                                            "tasks": [[api, "A", pre], ["method", "A", not pre]]}})
